@@ -131,7 +131,7 @@ func main() {
 	if !r.Quick() {
 		ordAlpha = []int64{1, 2, 3, 5, 10, 100}
 		ordMaxN = 5
-		ordCfg = rotCfg{maxStart: 8, maxTotal: 8, periods: 3}
+		ordCfg = rotCfg{maxStart: 8, maxTotal: 9, periods: 3}
 		extAlpha = []int64{1, 2, M / 4, M / 2, M/2 + 1, M - 1, M}
 		extMaxN = 4
 		extCfg = rotCfg{maxStart: 5, maxTotal: 7, periods: 3, window: 5000}
